@@ -148,11 +148,56 @@ the remainder, the empty record. -/
 def stdinRecords (id : Nat) (body : Bytes) : Bytes :=
   streamWrite typeStdin id body ++ streamClose typeStdin id
 
+/-- How `Do`'s `req io.Reader` behaves under `io.Copy(body, req)`. -/
+inductive BodyReader where
+  | none                                   -- `req == nil`: nothing is copied
+  | writerTo                               -- req has WriteTo (bytes.Reader, strings.Reader …): one `Write` of everything
+  | plain (wants : List Nat) (eofWithData : Bool)
+      -- a plain reader: the k-th Read returns at most `wants[k]` (≥1) bytes (everything available
+      -- once the list is used up); `eofWithData`: the last Read returns its bytes together with io.EOF
+deriving Repr, DecidableEq
+
+/-- how many bytes one `Read(b.buf[b.n:])` returns: what the reader is willing to give, at most
+the free space, at most what is left -/
+def readCount (wants : List Nat) (remLen avail : Nat) : Nat :=
+  let want := match wants with
+    | [] => remLen
+    | x :: _ => if x = 0 then 1 else x
+  min (min want avail) remLen
+
+/-- `bufio.Writer.ReadFrom(r)` (what `io.Copy` calls on the bufWriter): flush when the buffer is
+full, read into the free space; on EOF flush pre-emptively if the buffer was filled exactly. -/
+def BufW.readFromFuel (typ id : Nat) (eofWithData : Bool) : Nat → BufW → Bytes → List Nat → BufW
+  | 0, w, _, _ => w
+  | f + 1, w, rem, wants =>
+    let w := if w.avail = 0 then BufW.flush typ id w else w
+    if rem.length = 0 then w
+    else
+      let m := readCount wants rem.length w.avail
+      let w' : BufW := { w with buf := w.buf ++ rem.take m }
+      if (rem.drop m).length = 0 ∧ eofWithData then
+        (if w'.avail = 0 then BufW.flush typ id w' else w')
+      else BufW.readFromFuel typ id eofWithData f w' (rem.drop m) wants.tail
+
+/-- the stdin part of `Do` as the code performs it: a bufio.Writer over the stream writer,
+`io.Copy` from the body reader, `Close` -/
+def stdinWire (id : Nat) (body : Bytes) : BodyReader → Bytes
+  | .none => BufW.close typeStdin id {}
+  | .writerTo => BufW.close typeStdin id (BufW.write typeStdin id {} body)
+  | .plain wants e => BufW.close typeStdin id (BufW.readFromFuel typeStdin id e (body.length + 2) {} body wants)
+
 /-- everything `Do(p, req)` writes -/
 def clientWire (id : Nat) (pairs : List Pair) (body : Bytes) : R Bytes :=
   match writePairs typeParams id pairs with
   | .error e => .error e
   | .ok ps => .ok (beginRequest id roleResponder 0 ++ ps ++ stdinRecords id body)
+
+/-- `Do(p, req)` with the body reader's behaviour spelled out (see `stdinWire`); Props/C13
+proves it equals `clientWire` for every reader -/
+def clientWireVia (id : Nat) (pairs : List Pair) (body : Bytes) (rk : BodyReader) : R Bytes :=
+  match writePairs typeParams id pairs with
+  | .error e => .error e
+  | .ok ps => .ok (beginRequest id roleResponder 0 ++ ps ++ stdinWire id body rk)
 
 /-! ### reading records (`record.read`, `streamReader`) -/
 
